@@ -1,4 +1,5 @@
 import Chiritori.Spec.Holds
+import Chiritori.Props.C08Source
 /-
   `spec` requests of the driver: evaluate a property's predicate on an observed (implementation) output.
   extra fields: property id, then property-specific fields.
@@ -60,6 +61,7 @@ def dispatch (extra : List String) (src ds de : List Char) (cfg : Cfg) (_args : 
     if nothingReady src ds de cfg then s!"ok\t{b2s (c04Holds src ds de cfg (unhex out))}" else "ok\tvacuous"
   | ["C07", toks] => s!"ok\t{b2s (c07Holds src ds de (parseTokens toks))}"
   | ["C08", toks] => s!"ok\t{b2s (c08Holds src ds de (parseTokens toks))}"
+  | ["C08fits"] => s!"ok\t{b2s (Props.C08.fitsSource ds de src)}"
   | ["C10", tree] =>
     let exp := treeString (stackParse ds de (tokenize src ds de))
     s!"ok\t{b2s (exp == tree)}"
